@@ -25,19 +25,21 @@ POPS = ['YRI', 'CEU', 'CHB']
 # --------------------------------------------------------------------------
 def gen_scenario(rng, k, quick, kind):
     """An abstract VCF: samples (population per column, '' = not in popinfo) and lines."""
+    # the number of populations cycles deterministically with the scenario index (period 3 against the
+    # period-8 cycle of kinds), so every (kind, #populations) pair occurs within 24 scenarios
     if kind == 'small':
-        npop = rng.choice([1, 2])
+        npop = [1, 2, 2][k % 3]
         ninds = [rng.randint(2, 3) for _ in range(npop)]
         nlines = rng.randint(6, 14)
     elif kind == 'big':
-        npop = rng.choice([1, 2, 3])
+        npop = k % 3 + 1
         hi = {1: 12, 2: 12, 3: 8}[npop]
         ninds = [rng.randint(2, hi) for _ in range(npop)]
         if rng.random() < 0.5:
             ninds[rng.randrange(npop)] = hi
         nlines = rng.randint(20, 45)
     else:
-        npop = rng.choice([1, 2, 3])
+        npop = k % 3 + 1
         ninds = [rng.randint(2, 6) for _ in range(npop)]
         nlines = rng.randint(10, 30)
     pops = rng.sample(POPS, npop)
@@ -48,6 +50,13 @@ def gen_scenario(rng, k, quick, kind):
     rng.shuffle(cols)
     names = ['s%d_%s' % (j, (c or 'zz')[:2]) for j, c in enumerate(cols)]
     chroms = rng.sample(CHROMS, rng.randint(1, 3))
+    if not any('_' in c for c in chroms):                 # every scenario has a chromosome name with '_' and one with '.'
+        chroms[0] = rng.choice(['chr_2', 'un_loc_7', 'scaf_12.1'])
+    if not any('.' in c for c in chroms):
+        if len(chroms) == 1:
+            chroms[0] = 'scaf_12.1'
+        else:
+            chroms[-1] = rng.choice(['sc.3', 'scaf_12.1'])
     miss = rng.choice([0.0, 0.05, 0.15, 0.3])
     lines = [{'kind': 'meta'}, {'kind': 'meta'}, {'kind': 'header'}]
     span = rng.choice([30, 100, 1000])
@@ -99,7 +108,7 @@ def write_vcf(scn, rng, d):
     """Write the abstract file with textual variety (case, phasing, AA spelling, extra INFO/FORMAT fields)."""
     vcf = os.path.join(d, 'scn%d.vcf' % scn['k'])
     gz = rng.random() < 0.2
-    fmt_dp = rng.random() < 0.4
+    fmt = scn.get('fmt') or ('GT:DP' if rng.random() < 0.4 else 'GT')
     out = []
     for l in scn['lines']:
         if l['kind'] == 'meta':
@@ -121,12 +130,14 @@ def write_vcf(scn, rng, d):
             if rng.random() < 0.4:
                 info.append(rng.choice(['RFL=ACG', 'AFL=TG', 'VT=SNP', 'H2']))
             cols = [l['chrom'], str(l['pos']), rng.choice(['.', 'rs%d' % rng.randint(1, 999)]), case(l['ref']), case(l['alt']),
-                    rng.choice(['.', '50', '3.2']), l['filt'], ';'.join(info) or '.', 'GT:DP' if fmt_dp else 'GT']
+                    rng.choice(['.', '50', '3.2']), l['filt'], ';'.join(info) or '.', fmt]
             for g in l['gts']:
                 sep = rng.choice(['/', '|'])
                 s = sep.join('.' if a == MISSING else str(a) for a in g)
-                if fmt_dp:
+                if fmt == 'GT:DP':
                     s += ':%d' % rng.randint(1, 60)
+                elif fmt == 'GT:AD':             # allelic depths; no reads where nothing is called
+                    s += ':0,0' if all(a == MISSING for a in g) else ':%d,%d' % (rng.randint(1, 30), rng.randint(0, 30))
                 cols.append(s)
             out.append('\t'.join(cols))
     text = '\n'.join(out) + '\n'
@@ -455,7 +466,7 @@ def table_records(ctx, k, workdir):
         except Exception as e:
             return None, {'raised': type(e).__name__ + ': ' + str(e)[:80]}
         return res, wrap(res)
-    P = rng.choice([1, 2, 3])
+    P = k % 3 + 1
     pops = rng.sample(POPS, P)
     nchr = [rng.randint(4, 14) for _ in pops]
     with_ids = rng.random() < 0.7
@@ -542,11 +553,266 @@ def table_records(ctx, k, workdir):
     return recs
 
 
+# --------------------------------------------------------------------------
+# fixed boundary scenarios (drawn in every tier): end points of every stated range, every named
+# option, argument types
+# --------------------------------------------------------------------------
+def _line(chrom, pos, ref, alt, aa, filt, gts):
+    return {'kind': 'data', 'chrom': chrom, 'pos': pos, 'filt': filt, 'ref': ref, 'alt': alt, 'aa': aa, 'gts': [list(g) for g in gts]}
+
+
+def _fixed_scenario(which, rng):
+    M = MISSING
+    hdr = [{'kind': 'meta'}, {'kind': 'header'}]
+    if which == 0:
+        # one population, 2 diploids (lower end points) + a sample the popinfo file omits; one line per class
+        pops, ninds, cols = ['YRI'], [2], ['YRI', '', 'YRI']
+        x = (1, 1)
+        lines = hdr + [
+            _line('chr_2', 1, 'A', 'T', 'A', 'PASS', [(0, 1), x, (1, 1)]),            # ancestral = REF, position 1
+            _line('chr_2', 10, 'C', 'G', 'G', 'PASS', [(0, 0), x, (0, 1)]),           # ancestral = ALT, position = chunk boundary
+            _line('chr_2', 11, 'C', 'G', 'absent', 'PASS', [(1, 1), x, (1, 1)]),      # no AA, fixed for ALT in the sample
+            _line('chr_2', 20, 'G', 'A', 'T', 'PASS', [(0, 0), x, (0, 0)]),           # mismatching AA, fixed for REF
+            _line('chr_2', 20, 'G', 'A', 'G', 'q10', [(1, 1), x, (1, 1)]),            # duplicate key, fails FILTER
+            _line('sc.3', 5, 'AT', 'G', 'A', 'PASS', [(0, 1), x, (0, 1)]),            # multi-character REF
+            _line('sc.3', 5, 'T', 'C', 'T', 'PASS', [(M, M), x, (0, 1)]),             # same key as a skipped line; one individual missing
+            _line('sc.3', 6, 'T', 'CA', 'T', 'PASS', [(0, 1), x, (0, 1)]),            # multi-character ALT
+            _line('sc.3', 7, 'T', 'C,G', 'T', 'PASS', [(0, 1), x, (0, 1)]),           # multi-allelic
+            _line('sc.3', 30, 'T', 'C', 'N', '.', [(M, M), x, (M, M)]),               # every call of the population missing; FILTER '.'
+            {'kind': 'meta'},
+            _line('scaf_12.1', 1, 'A', 'C', 'C', 'PASS', [(0, M), x, (1, 1)]),        # half-missing call
+            _line('scaf_12.1', 1, 'A', 'C', 'A', 'PASS', [(0, 1), x, (0, 1)]),        # duplicate key, both stored: later wins
+            _line('scaf_12.1', 2, 'A', 'G', 'absent', 'LowQual', [(0, 1), x, (0, 1)]),
+            _line('scaf_12.1', 40, 'G', 'T', 'G', 'PASS', [(1, 0), x, (0, 0)]),
+            _line('scaf_12.1', 21, 'G', 'T', 'T', 'PASS', [(1, 0), x, (1, 1)]),        # positions not in file order
+        ]
+    elif which == 1:
+        # three populations, 12 diploids each (upper end points), interleaved columns
+        pops, ninds = ['CEU', 'CHB', 'YRI'], [12, 12, 12]
+        cols = [pops[j % 3] for j in range(36)]
+        lines = list(hdr)
+        for j in range(10):
+            ref, alt = rng.sample(BASES, 2)
+            freq = [0.1, 0.5, 0.9, 0.3, 0.0, 1.0, 0.5, 0.2, 0.7, 0.5][j]
+            pf = {p: min(1.0, max(0.0, freq + d)) for p, d in zip(pops, (0.0, 0.25, -0.25))}
+            gts = []
+            for c in cols:
+                if j >= 6 and rng.random() < 0.2:
+                    gts.append((M, M))
+                else:
+                    gts.append((int(rng.random() < pf[c]), int(rng.random() < pf[c])))
+            aa = [ref, alt, ref, alt, ref, alt, 'absent', ref, rng.choice([b for b in BASES if b not in (ref, alt)]), alt][j]
+            lines.append(_line(['un_loc_7', 'scaf_12.1'][j % 2], 3 + 7 * j, ref, alt, aa, 'PASS' if j != 7 else 's50;q10', gts))
+    else:
+        # every line fails FILTER or is not a SNP: the dictionary is empty with filter=True; 2 and 12 diploids
+        pops, ninds = ['CHB', 'YRI'], [2, 12]
+        cols = ['CHB', 'YRI'] * 2 + ['YRI'] * 10
+        lines = list(hdr)
+        for j in range(4):
+            gts = [(int(rng.random() < 0.5), int(rng.random() < 0.4)) for _ in cols]
+            lines.append(_line('chr_2' if j < 2 else 'sc.3', 5 + 5 * j, 'A', 'G' if j != 3 else 'GT', ['A', 'G', 'absent', 'A'][j],
+                               ['q10', 'LowQual', 'q10;s50', 'PASS'][j], gts))
+    names = ['s%d_%s' % (j, (c or 'zz')[:2]) for j, c in enumerate(cols)]
+    return {'k': 900 + which, 'pops': pops, 'ninds': ninds, 'samples': cols, 'names': names, 'lines': lines, 'kind': 'fixed',
+            'fmt': ['GT:AD', 'GT', 'GT:DP'][which]}                 # every FORMAT layout is drawn
+
+
+def boundary_records(ctx, which, workdir):
+    import dadi
+    from dadi import Misc
+    Spectrum = dadi.Spectrum
+    rng = random.Random(ctx.seed * 1000 + 900 + which)
+    scn = _fixed_scenario(which, rng)
+    vcf, popf = write_vcf(scn, rng, workdir)
+    A = abstract_vcf(scn)
+    pops, P = scn['pops'], len(scn['pops'])
+    nchr = [2 * n for n in scn['ninds']]
+    tag = {'seed': ctx.seed % 100000, 'k': which}
+    recs = []
+    nid = itertools.count()
+
+    def add(op, site, inp, out, tab=None):
+        inp = dict(inp)
+        inp['scn'] = tag
+        r = {'id': '%s-B%d-%d' % (op, which, next(nid)), 'op': op, 'site': site, 'in': inp, 'out': out}
+        if tab is not None:
+            r['tab'] = tab
+        recs.append(r)
+
+    def observe(fn, wrap):
+        try:
+            with warnings.catch_warnings():
+                warnings.simplefilter('ignore')
+                res = fn()
+        except Exception as e:
+            return None, {'raised': type(e).__name__ + ': ' + str(e)[:80]}
+        return res, wrap(res)
+    known = {'%s_%d' % (l['chrom'], l['pos']): (l['chrom'], l['pos']) for l in scn['lines'] if l['kind'] == 'data'}
+    dds, mdds = {}, {}
+    for filt in (True, False):
+        kw = {'flanking_info': ['RFL', 'AFL']} if filt else {}
+        dd, out = observe(lambda: Misc.make_data_dict_vcf(vcf, popf, filter=filt, **kw), lambda d: {'dd': enc_dd(d)})
+        add('vcf', 'Misc.make_data_dict_vcf', {'vcf': A, 'filter': filt}, out)
+        dds[filt], mdds[filt] = dd, model_dd(scn, filt)
+    # the remaining keywords of the signature add information; the dictionary of calls must not change
+    if which == 0:
+        _, out = observe(lambda: Misc.make_data_dict_vcf(vcf, popf, filter=True, calc_coverage=True), lambda d: {'dd': enc_dd(d)})
+        add('vcf', 'Misc.make_data_dict_vcf', {'vcf': A, 'filter': True, 'option': 'calc_coverage'}, out)
+        _, out = observe(lambda: Misc.make_data_dict_vcf(vcf, popf, filter=False, extract_ploidy=True), lambda t: {'dd': enc_dd(t[0])})
+        add('vcf', 'Misc.make_data_dict_vcf', {'vcf': A, 'filter': False, 'option': 'extract_ploidy'}, out)
+    elif which == 1:
+        # no AD field in FORMAT (the function documents coverage '-' for that case)
+        _, out = observe(lambda: Misc.make_data_dict_vcf(vcf, popf, filter=True, calc_coverage=True), lambda d: {'dd': enc_dd(d)})
+        add('vcf', 'Misc.make_data_dict_vcf:calc_coverage-no-AD', {'vcf': A, 'filter': True, 'option': 'calc_coverage'}, out)
+    if any(d is None for d in dds.values()):
+        return recs
+
+    def src(filt):
+        return {'vcf': A, 'filter': filt}
+
+    def count(filt, order):
+        _, out = observe(lambda: Misc.count_data_dict(dds[filt], order),
+                         lambda cd: {'counts': [{'called': [int(x) for x in c[0]], 'derived': [int(x) for x in c[1]], 'pol': bool(c[2]), 'n': int(n)}
+                                                for c, n in cd.items()]})
+        add('count', 'Misc.count_data_dict', dict(src(filt), pops=list(order)), out)
+
+    def fs(filt, pp, proj, pol, mc, as_types=None):
+        a_pp, a_proj = list(pp), list(proj)
+        if as_types == 'tuple':
+            a_pp, a_proj = tuple(pp), tuple(proj)
+        elif as_types == 'array':
+            a_pp, a_proj = tuple(pp), np.array(proj)
+        elif as_types == 'npint':
+            a_proj = [np.int64(x) for x in proj]
+        _, out = observe(lambda: Spectrum.from_data_dict(dds[filt], a_pp, a_proj, mask_corners=mc, polarized=pol), lambda f: {'s': enc(f)})
+        add('fs', 'Spectrum.from_data_dict', dict(src(filt), pops=list(pp), proj=[int(x) for x in proj], pol=pol, mask_corners=mc), out)
+
+    def stats(filt, pp, proj, pol, mc):
+        def calc():
+            f = Spectrum.from_data_dict(dds[filt], list(pp), list(proj), mask_corners=mc, polarized=pol)
+            o = {'S': stat(f.S)}
+            if len(pp) == 1:
+                o.update(pi=stat(f.pi), W=stat(f.Watterson_theta), D=stat(f.Tajima_D), thetaL=stat(f.theta_L))
+            else:
+                o['Fst'] = stat(f.Fst)
+            return o
+        _, out = observe(calc, lambda o: o)
+        tab = None
+        if len(pp) == 1:
+            c = sqrt_table(mdds[filt], pp[0], proj[0], pol)
+            tab = {'sqrtC': c if c is not None else 'na'}
+        add('stats', 'Spectrum.statistics', dict(src(filt), pops=list(pp), proj=[int(x) for x in proj], pol=pol, mask_corners=mc), out, tab=tab)
+
+    def chunks(filt, cs_arg, cs, proj, pol, mc, nboot, bseed, with_spectra=True):
+        dd = dds[filt]
+        frags, out = observe(lambda: Misc.fragment_data_dict(dd, cs_arg), lambda fr: {'chunks': [[str(x) for x in f] for f in fr]})
+        add('fragment', 'Misc.fragment_data_dict', {'where': where_of(list(dd), known), 'cs': int(cs)}, out)
+        if frags is None or not with_spectra:
+            return
+
+        def chunk_fs():
+            return ([Spectrum.from_data_dict(f, pops, proj, mask_corners=mc, polarized=pol) for f in frags],
+                    Spectrum.from_data_dict(dd, pops, proj, mask_corners=mc, polarized=pol))
+        _, out2 = observe(chunk_fs, lambda t: {'ss': [enc(x) for x in t[0]], 'whole': enc(t[1])})
+        add('chunk_fs', 'Misc.fragment_data_dict', dict(src(filt), pops=pops, proj=list(proj), pol=pol, chunks=out['chunks']), out2)
+        if not frags:
+            return                      # no chunk to draw from: nothing is stated about bootstraps of an empty genome
+        random.seed(bseed)
+        drawn = [[j + 1 for j in random.choices(range(len(frags)), k=len(frags))] for _ in range(nboot)]
+
+        def boots():
+            random.seed(bseed)
+            return Misc.bootstraps_from_dd_chunks(frags, nboot, pops, list(proj), mask_corners=mc, polarized=pol)
+        _, out3 = observe(boots, lambda bs: {'bs': [enc(b) for b in bs]})
+        add('boot', 'Misc.bootstraps_from_dd_chunks', dict(src(filt), pops=pops, proj=list(proj), pol=pol, mask_corners=mc,
+                                                            chunks=out['chunks'], drawn=drawn, bseed=bseed), out3)
+
+    def subsample(sub, seed, filt, proj_list=()):
+        sdd, out = observe(lambda: Misc.make_data_dict_vcf(vcf, popf, subsample=dict(sub), filter=filt, seed=seed), lambda d: {'dd': enc_dd(d)})
+        add('vcf_sub', 'Misc.make_data_dict_vcf', {'vcf': A, 'filter': filt, 'sub': [{'pop': p, 'k': int(v)} for p, v in sub.items()],
+                                                 'seed': -1 if seed is None else seed}, out)
+        if not sdd:
+            return
+        sp = list(sub)
+        for proj, pol in proj_list:
+            _, o2 = observe(lambda: Spectrum.from_data_dict(sdd, sp, list(proj), mask_corners=False, polarized=pol), lambda f: {'s': enc(f)})
+            add('fs', 'Spectrum.from_data_dict', {'dd': out['dd'], 'pops': sp, 'proj': list(proj), 'pol': pol, 'mask_corners': False}, o2)
+
+    if which == 0:
+        count(True, ['YRI'])
+        count(False, ('YRI',))
+        for m in range(1, 5):                                   # every projection x polarized x mask_corners
+            for pol in (True, False):
+                for mc in (True, False):
+                    fs(True, pops, [m], pol, mc)
+        fs(False, pops, [4], True, False)
+        fs(True, pops, [5], True, False)                        # more than the sample holds: no SNP is adequately called
+        fs(True, pops, [3], True, False, 'tuple')
+        fs(True, pops, [3], False, True, 'array')
+        fs(False, pops, [2], True, False, 'npint')
+        for cs_arg, cs in ((1, 1), (10, 10), (10.0, 10), (np.int64(10), 10), (np.float64(20.0), 20), (39, 39), (40, 40), (41, 41), (10 ** 6, 10 ** 6)):
+            chunks(True, cs_arg, cs, [2], cs % 2 == 0, cs % 3 == 0, 1 if cs == 10 else 3, [0, 1, 10 ** 9][cs % 3], with_spectra=(cs != 1))
+        chunks(False, 10, 10, [3], False, False, 2, 12345)
+        for m in (2, 3, 4):
+            for pol in (True, False):
+                stats(True, pops, [m], pol, m == 3)
+        stats(False, pops, [4], True, False)
+        subsample({'YRI': 1}, None, True, [([2], True), ([1], False)])
+        subsample({'YRI': 2}, 0, True, [([4], True), ([3], True)])          # every individual; seed 0
+        subsample({'YRI': 2}, 77, False, [([4], False)])
+        subsample({'YRI': 3}, 5, True)                                       # more than exist: nothing can be stored
+    elif which == 1:
+        count(True, ['YRI', 'CEU', 'CHB'])
+        for proj in ([24, 1, 1], [1, 24, 1], [1, 1, 24], [2, 2, 2], [24, 2, 3]):
+            fs(True, pops, proj, True, False)
+        fs(True, pops, [3, 24, 2], False, True)
+        fs(True, ['YRI', 'CEU'], [24, 24], True, False)                      # full size of two 12-diploid populations
+        fs(True, ['CHB', 'YRI'], [24, 23], False, False)
+        fs(False, ('CHB',), [24], True, True, 'tuple')
+        if not ctx.quick:
+            fs(True, pops, [12, 12, 12], True, False)
+            fs(True, pops, [24, 24, 8], False, False)
+        for p in pops:
+            stats(True, [p], [24], True, False)
+            stats(True, [p], [23], False, True)
+        stats(True, pops, [6, 6, 6], True, False)                            # equal sizes
+        stats(True, pops, [24, 2, 5], True, True)                            # very unequal sizes
+        stats(True, ['YRI', 'CEU'], [24, 24], True, False)
+        stats(True, ['CEU', 'CHB'], [1, 2], True, False)
+        stats(True, pops, [2, 2, 2], False, False)
+        if not ctx.quick:
+            stats(True, pops, [12, 12, 12], True, False)
+        span = max(p for _, p in known.values())
+        chunks(True, span, span, [2, 1, 1], True, False, 2, 4242)
+        chunks(True, 7, 7, [1, 2, 1], False, True, 1, 1)
+        subsample({'CEU': 12, 'CHB': 12, 'YRI': 12}, 7, True, [([24, 1, 1], True)])   # every individual of every population
+        subsample({'YRI': 1}, None, True, [([2], False)])
+        subsample({'CHB': np.int64(11), 'CEU': 1}, 2 ** 31 - 1, False, [([2, 2], True)])
+    else:
+        count(True, pops)
+        count(False, list(reversed(pops)))
+        fs(True, pops, [2, 3], True, False)                                  # empty dictionary: all-zero spectrum
+        fs(True, pops, [2, 3], False, True)
+        fs(False, pops, [4, 24], True, False)                                # 2 and 12 diploids at full size
+        fs(False, list(reversed(pops)), [24, 4], False, False)
+        fs(False, pops, [1, 1], True, False)
+        for j, (m1, m2) in enumerate(itertools.product(range(1, 5), (1, 2, 23, 24))):    # every projection of the small population
+            fs(False, pops, [m1, m2], j % 3 != 0, j % 2 == 0)                          # against the end points of the large one
+        chunks(True, 10, 10, [2, 2], True, False, 2, 3)                      # nothing to split
+        chunks(False, 5, 5, [2, 2], True, False, 2, 3)
+        stats(False, pops, [4, 24], True, False)
+        stats(False, pops, [4, 4], False, True)
+        stats(False, ['CHB'], [4], True, False)
+        subsample({'CHB': 2, 'YRI': 12}, 11, False, [([4, 24], True)])
+        subsample({'CHB': 2, 'YRI': 12}, 11, True)                           # everything filtered
+    return recs
+
+
 def records(ctx, only=None):
     workdir = tempfile.mkdtemp(prefix='c13-', dir=common.SCRATCH_ROOT)
     recs = []
     try:
-        nscn = 12 if ctx.quick else 64
+        nscn = 9 if ctx.quick else 64      # (the fixed boundary scenarios are drawn in addition)
         ntab = 4 if ctx.quick else 16
         for k in range(nscn):
             if only is None or only == ('scn', k):
@@ -554,6 +820,9 @@ def records(ctx, only=None):
         for k in range(ntab):
             if only is None or only == ('tab', k):
                 recs += table_records(ctx, k, workdir)
+        for k in range(3):
+            if only is None or only == ('bnd', k):
+                recs += boundary_records(ctx, k, workdir)
     finally:
         shutil.rmtree(workdir, ignore_errors=True)
     # spread heavy records over the validation batches
@@ -653,7 +922,7 @@ def run(ctx):
             ctx.seed = ctx.replay_payload.get('seed', ctx.seed)
             ctx.quick = ctx.replay_payload.get('tier', 'quick') == 'quick'
             k = rec['in']['scn']['k']
-            fresh = [r for r in records(ctx, only=(('tab', k) if '-T' in rec['id'] else ('scn', k))) if r['id'] == rec['id']]
+            fresh = [r for r in records(ctx, only=(('tab', k) if '-T' in rec['id'] else ('bnd', k) if '-B' in rec['id'] else ('scn', k))) if r['id'] == rec['id']]
         except Exception:
             fresh = []
         recs = fresh or [rec]
